@@ -378,7 +378,8 @@ func c10Listeners(p *ana.Prog, r *ana.Result) {
 			uid := ana.AccessPath(c.Common().Args[2])
 			// the unique identifier of the Packet that ProcessRequest verified
 			reqPath := strings.TrimPrefix(pathOf(prs[0].Common().Args[2]), "&")
-			if strings.HasSuffix(sp, ".S2C") && cookiePaths[strings.TrimSuffix(sp, ".S2C")] && uid == reqPath+".UniqueID.ID" {
+			reqPaths := copyClosure(fn, reqPath, "Packet")
+			if strings.HasSuffix(sp, ".S2C") && cookiePaths[strings.TrimSuffix(sp, ".S2C")] && strings.HasSuffix(uid, ".UniqueID.ID") && reqPaths[strings.TrimSuffix(uid, ".UniqueID.ID")] {
 				r.Ok("C10.keys", fname, "response-sealed-under-cookie-S2C", posOf(p, c), "NewResponsePacket(cookies, serverCookie.S2C, ntsreq.UniqueID.ID)")
 			} else {
 				r.Violate("C10.keys", fname, "response-sealed-under-cookie-S2C", posOf(p, c), "the response is not sealed under the decrypted cookie's server-to-client key with the request's unique identifier")
